@@ -512,7 +512,15 @@ class Machine:
         mname = h.names[0]
         if isinstance(obj, Opaque):
             full = f"{obj.text}.{mname}"
-            r_ = self.call_hook(self, node, full, list(h.args), dict(h.kwargs))
+            # the hooks find the receiver through the call node: hand them the call `obj.method(...)` the helper stands for
+            self.env["_helper_receiver_"] = obj
+            synth = ast.Call(func=ast.Attribute(value=ast.Name(id="_helper_receiver_", ctx=ast.Load()), attr=mname, ctx=ast.Load()), args=[], keywords=[])
+            ast.copy_location(synth, node)
+            ast.fix_missing_locations(synth)
+            try:
+                r_ = self.call_hook(self, synth, full, list(h.args), dict(h.kwargs))
+            finally:
+                self.env.pop("_helper_receiver_", None)
             if r_ is not NotImplemented:
                 return r_
             parts = [render(a) for a in h.args] + [f"{k}={render(v)}" for k, v in h.kwargs.items()]
